@@ -179,7 +179,6 @@ impl std::error::Error for TmplError {}
 pub struct TmplGroup {
     trees: HashMap<String, Template>,
     scripts: HashMap<String, String>,
-    has_scripts: bool,
     extra_runtime_string: String,
     dev_mode: bool,
 }
@@ -190,7 +189,6 @@ impl TmplGroup {
         Self {
             trees: HashMap::new(),
             scripts: HashMap::new(),
-            has_scripts: false,
             extra_runtime_string: String::new(),
             dev_mode: false,
         }
@@ -208,11 +206,22 @@ impl TmplGroup {
         self.dev_mode
     }
 
+    /// Whether the group contains scripts (script files or inline scripts of its templates).
+    ///
+    /// It is a function of the files the group holds now, not of the calls that were made:
+    /// a template that was replaced or removed does not count any more.
+    fn has_scripts(&self) -> bool {
+        !self.scripts.is_empty()
+            || self
+                .trees
+                .values()
+                .any(|t| t.inline_script_module_names().next().is_some())
+    }
+
     /// import another group.
     pub fn import_group(&mut self, group: &TmplGroup) {
         self.trees.extend(group.trees.clone());
         self.scripts.extend(group.scripts.clone());
-        self.has_scripts = self.has_scripts || group.has_scripts;
         // (the script of this group may end in a line comment)
         if !self.extra_runtime_string.is_empty()
             && !group.extra_runtime_string.is_empty()
@@ -247,9 +256,6 @@ impl TmplGroup {
     /// Add a template into the group.
     pub fn add_tmpl(&mut self, path: &str, tmpl_str: &str) -> Vec<ParseError> {
         let (template, mut parse_state) = crate::parse::parse(path, tmpl_str);
-        if template.inline_script_module_names().next().is_some() {
-            self.has_scripts = true;
-        }
         let ret = parse_state.take_warnings();
         self.trees.insert(template.path.clone(), template);
         ret
@@ -290,7 +296,6 @@ impl TmplGroup {
     /// `require` and `exports` can be visited in this JavaScript segment, similar to Node.js.
     pub fn add_script(&mut self, path: &str, content: &str) {
         self.scripts.insert(path.to_string(), content.to_string());
-        self.has_scripts = true;
     }
 
     /// Remove a script segment from the group.
@@ -314,7 +319,7 @@ impl TmplGroup {
     pub fn get_runtime_string(&self) -> String {
         let mut w = JsTopScopeWriter::new(String::new());
         w.function_scope(|w| {
-            runtime_fns(w, self.has_scripts)?;
+            runtime_fns(w, self.has_scripts())?;
             if self.extra_runtime_string.len() > 0 {
                 w.custom_stmt_str(&self.extra_runtime_string)?;
             }
@@ -404,7 +409,7 @@ impl TmplGroup {
         &self,
         w: &mut JsFunctionScopeWriter<String>,
     ) -> Result<(), TmplError> {
-        runtime_fns(w, self.has_scripts)?;
+        runtime_fns(w, self.has_scripts())?;
         if self.extra_runtime_string.len() > 0 {
             w.custom_stmt_str(&self.extra_runtime_string)?;
         }
@@ -509,7 +514,7 @@ impl TmplGroup {
     pub fn export_globals(&self) -> Result<String, TmplError> {
         let mut w = JsTopScopeWriter::new(String::new());
         w.function_scope(|w| {
-            runtime_fns(w, self.has_scripts)?;
+            runtime_fns(w, self.has_scripts())?;
             if self.extra_runtime_string.len() > 0 {
                 w.custom_stmt_str(&self.extra_runtime_string)?;
             }
